@@ -1065,6 +1065,15 @@ func runC04(a runArgs) error {
 			}
 		}
 	}
+	// (0) canonical histories of the findings (always run, both tiers)
+	for _, d := range c04Canonical {
+		cfg, evs, err := c04ParseDesc(d)
+		if err != nil {
+			return err
+		}
+		r := c04Run(cfg, c04Explicit(evs))
+		c04Emit(e, cfg, r, "canonical")
+	}
 	// (1) fault-free grid: every flavour x size around the block boundaries x SZX pair
 	for _, p := range pairs {
 		s := c04SzxSize(min2(p.a, p.b))
@@ -1255,5 +1264,115 @@ func runC04(a runArgs) error {
 		r := c04Run(cfg, c04Random(cfg, g, fp, canBump))
 		c04Emit(e, cfg, r, "random", fmt.Sprintf("tokens-%d", nx), fmt.Sprintf("fault-pct-%d", fp))
 	}
+	c04RestartFamily(e, thorough)
 	return e.Flush(a.out)
+}
+
+// c04Canonical: the histories of the findings recorded in notes/C04.md.
+var c04Canonical = []string{
+	// F15: complete transfer, the last block replayed
+	"c04 0 1152 0 1152 | x0,2,7,0,5,33,-1 | r11,5,0,42 | | S0 D0 D0 D0 D0 D0 D0 R4 D0 T0 E0 E1",
+	// one-way POST of exactly one block
+	"c04 0 1152 0 1152 | x1,2,10,0,9,16,-1 | r19,3,0,42 | | S0 D0 D0 E0 E1",
+	// finding 3, witness 1: the token of a finished POST with a block-wise response is used by a later Do,
+	// an old block (NUM > 0) of the first response arrives: the reassembly has to start again at block 0
+	"c04 0 1152 0 1152 | x0,2,7,0,5,5,-1 | r11,40,0,42 | | S0 D0 D0 D0 D0 D0 D0 S0 R3 D1",
+	// finding 3, witness 2: one Do; the resource changes, the first request is duplicated
+	"c04 0 1152 0 1152 | x0,2,7,0,5,5,-1 | r11,20,1,42 | | S0 D0 D0 D0 B0 R0 R2 D2 D2",
+}
+
+// c04RestartFamily: histories in which the reassembly of a block-wise RESPONSE has to start again at
+// block 0: (a) the exchange is started again with the token already used and blocks of the earlier
+// response are replayed; (b) the resource (with ETag) changes while its representation is fetched and
+// earlier messages (the first request, blocks) are replayed. Bases: Do POST / PUT / GET whose response
+// is block-wise, request small or block-wise.
+func c04RestartFamily(e *Emitter, thorough bool) {
+	type base struct {
+		code, reqLen, resLen int
+		etag                 bool
+	}
+	bases := []base{{2, 5, 40, false}, {3, 5, 20, true}, {1, 0, 40, true}}
+	if thorough {
+		bases = append(bases, base{2, 20, 40, true}, base{3, 5, 40, false}, base{2, 5, 33, true}, base{1, 0, 20, false})
+	}
+	drain := func(inner []c04Ev, lifo bool) c04Policy {
+		i, n, epi := 0, 0, 0
+		epilogue := []c04Ev{{'T', 0}, {'E', 0}, {'E', 1}}
+		return func(w *c04World, _ int) (c04Ev, bool) {
+			if i < len(inner) {
+				i++
+				return inner[i-1], true
+			}
+			if len(w.flight) > 0 && n < 40 {
+				n++
+				if lifo {
+					return c04Ev{'D', len(w.flight) - 1}, true
+				}
+				return c04Ev{'D', 0}, true
+			}
+			if epi < len(epilogue) {
+				epi++
+				return epilogue[epi-1], true
+			}
+			return c04Ev{}, false
+		}
+	}
+	for _, b := range bases {
+		cfg := &c04Cfg{szxA: 0, maxA: 1152, szxB: 0, maxB: 1152}
+		cfg.exch = []c04Exch{{0, b.code, 7, 0, 5, b.reqLen, -1}}
+		cfg.res = []c04Res{{11, b.resLen, b.etag, 42}}
+		name := fmt.Sprintf("restart-code%d-req%d-res%d", b.code, b.reqLen, b.resLen)
+		// the fault-free run: its length and its wire history
+		ff := c04Run(cfg, c04Scripted(cfg, nil))
+		var run []c04Ev // S0 D0 ... D0 (without the epilogue)
+		nh := 0
+		for i, ev := range ff.evs {
+			if ev.op == 'S' || ev.op == 'D' {
+				run = append(run, ev)
+			}
+			if ff.obs[i].wire != nil {
+				nh++
+			}
+		}
+		// (a) complete, start again with the same token, replay one or two old messages, let everything arrive
+		for h1 := 0; h1 < nh; h1++ {
+			evs := append(append([]c04Ev(nil), run...), c04Ev{'S', 0}, c04Ev{'R', h1})
+			for _, lifo := range []bool{false, true} {
+				r := c04Run(cfg, drain(evs, lifo))
+				c04Emit(e, cfg, r, "restart", name, "token-reused")
+			}
+			for h2 := 0; h2 < nh; h2++ {
+				if !thorough && h2 != h1+1 && h2 != 0 {
+					continue
+				}
+				evs2 := append(append([]c04Ev(nil), evs...), c04Ev{'R', h2})
+				for _, lifo := range []bool{false, true} {
+					r := c04Run(cfg, drain(evs2, lifo))
+					c04Emit(e, cfg, r, "restart", name, "token-reused")
+				}
+			}
+		}
+		// (b) after p steps the resource changes; one or two earlier messages are replayed
+		if b.etag {
+			for p := 1; p <= len(run); p++ {
+				for h1 := 0; h1 < nh; h1++ {
+					evs := append(append([]c04Ev(nil), run[:p]...), c04Ev{'B', 0}, c04Ev{'R', h1})
+					for _, lifo := range []bool{false, true} {
+						r := c04Run(cfg, drain(evs, lifo))
+						c04Emit(e, cfg, r, "restart", name, "resource-changed")
+					}
+					for h2 := 0; h2 < nh; h2++ {
+						if !thorough && h2 > 2 {
+							continue
+						}
+						evs2 := append(append([]c04Ev(nil), evs...), c04Ev{'R', h2})
+						for _, lifo := range []bool{false, true} {
+							r := c04Run(cfg, drain(evs2, lifo))
+							c04Emit(e, cfg, r, "restart", name, "resource-changed")
+						}
+					}
+				}
+			}
+		}
+	}
 }
